@@ -17,16 +17,30 @@ fn strip_trailing_empty(mut v: Vec<String>) -> Vec<String> {
     v
 }
 
-fn run_text(cols: usize, rows: usize, pieces: &[&str]) -> (Vec<String>, Vec<String>) {
-    let mut vt = build(cols, rows, None);
-    for p in pieces {
-        vt.feed_str(p);
-    }
+fn read_text(vt: &avt::Vt) -> (Vec<String>, Vec<String>) {
     let text = vt.text();
     let mut uw = avt::util::TextUnwrapper::new();
     let mut unwrapped: Vec<String> = vt.lines().iter().filter_map(|l| uw.push(l)).collect();
     unwrapped.extend(uw.flush());
     (text, unwrapped)
+}
+
+fn run_text(cols: usize, rows: usize, pieces: &[&str]) -> (Vec<String>, Vec<String>) {
+    let mut vt = build(cols, rows, None);
+    for p in pieces {
+        vt.feed_str(p);
+    }
+    read_text(&vt)
+}
+
+/// the text fed at one geometry, then the window resized to the other: "whatever the width"
+fn run_text_then_resize(cols: usize, rows: usize, pieces: &[&str], cols2: usize, rows2: usize) -> (Vec<String>, Vec<String>) {
+    let mut vt = build(cols, rows, None);
+    for p in pieces {
+        vt.feed_str(p);
+    }
+    vt.resize(cols2, rows2);
+    read_text(&vt)
 }
 
 impl Check for C09 {
@@ -148,8 +162,8 @@ impl Check for C09 {
         let expected: Vec<String> = strip_trailing_empty(whole.split("\r\n").map(|l| l.trim_end_matches(' ').to_string()).collect());
         let cols2 = t.param_u64("cols2").unwrap_or(t.config.cols as u64).max(1) as usize;
         let rows2 = t.param_u64("rows2").unwrap_or(t.config.rows as u64).max(1) as usize;
-        let res = catch_avt(|| (run_text(t.config.cols, t.config.rows, &pieces), run_text(cols2, rows2, &[whole.as_str()])));
-        let ((text1, unw1), (text2, unw2)) = match res {
+        let res = catch_avt(|| (run_text(t.config.cols, t.config.rows, &pieces), run_text(cols2, rows2, &[whole.as_str()]), run_text_then_resize(t.config.cols, t.config.rows, &pieces, cols2, rows2)));
+        let ((text1, unw1), (text2, unw2), (text3, unw3)) = match res {
             Ok(x) => x,
             Err(_) => {
                 st.bump("runs_abandoned_on_panic");
@@ -172,7 +186,12 @@ impl Check for C09 {
         if t1 != t2 {
             return Verdict::Violation { rule: "C09/width-dependence".into(), detail: format!("text() differs between {} and {}", geo(t.config.cols, t.config.rows), geo(cols2, rows2)) };
         }
-        for (unw, c, rw) in [(unw1, t.config.cols, t.config.rows), (unw2, cols2, rows2)] {
+        let t3 = strip_trailing_empty(text3);
+        if t3 != expected {
+            return Verdict::Violation { rule: "C09/text-after-resize".into(), detail: format!("fed at {} then resized to {}: text() != input lines; {}", geo(t.config.cols, t.config.rows), geo(cols2, rows2), first_diff(&t3, &expected)) };
+        }
+        st.bump("resize_twin_compared");
+        for (unw, c, rw) in [(unw1, t.config.cols, t.config.rows), (unw2, cols2, rows2), (unw3, cols2, rows2)] {
             let u: Vec<String> = strip_trailing_empty(unw.iter().map(|l| l.trim_end_matches(' ').to_string()).collect());
             if u != expected {
                 return Verdict::Violation { rule: "C09/unwrapper".into(), detail: format!("{}: TextUnwrapper over lines() != input lines (up to trailing spaces); {}", geo(c, rw), first_diff(&u, &expected)) };
@@ -202,7 +221,7 @@ impl Check for C09 {
     }
     fn meta(&self) -> Meta {
         Meta {
-            rule: "texts of printable characters and CR LF (line lengths 0..3 widths with k*w-1, k*w, k*w+1 forced, lines of spaces, interior/trailing runs of spaces, non-ASCII), widths 1..40, heights 1..12, unlimited scrollback, any chunking; twin: the same text on a second geometry fed in one call; oracle: text() == input lines right-trimmed (trailing empty lines aside) on both, TextUnwrapper over lines() equal up to trailing spaces, text() identical across the two geometries; non-trivial = non-empty text and two different geometries; distinct = (text, widths)",
+            rule: "texts of printable characters and CR LF (line lengths 0..3 widths with k*w-1, k*w, k*w+1 forced, lines of spaces, interior/trailing runs of spaces, non-ASCII), widths 1..40, heights 1..12, unlimited scrollback, any chunking; twins: the same text on a second geometry fed in one call, and the first terminal resized to the second geometry afterwards (the cursor is at the end of the text, so a resize may not cut anything); oracle: text() == input lines right-trimmed (trailing empty lines aside) on both, TextUnwrapper over lines() equal up to trailing spaces, text() identical across the two geometries; non-trivial = non-empty text and two different geometries; distinct = (text, widths)",
             assumptions: vec!["Unicode white space other than U+0020 is not generated (text() trims with trim_end, the statement says spaces)", "DEL is not generated"],
             real: vec!["avt::Vt (two geometries)", "avt::util::TextUnwrapper"],
             simulated: vec!["App (text producer)", "Pipe (chunking)", "configuration twin (S6)"],
